@@ -186,3 +186,103 @@ def unconditional_pair(fl, first, second):
 
 def buf_sig(fl, op):
     return frozenset((o.kind, o.key, o.path, o.bb) for o in fl.origins(op))
+
+
+def sticky_flag(fl, set_edges, ok_blocks):
+    """A local F that latches an event: F starts at an initial value (0 / false / None), every path from each edge in
+    `set_edges` assigns it a non-initial value before the next loop head or function exit, nothing resets it, and every
+    block in `ok_blocks` is reachable only through an edge of a test that F still has its initial value.
+    Form-independent: counter (`n += 1` ... `n == 0`), bool flag, or Option (`= Some(..)` ... `None =>`).
+    Returns (local, why) - local is None when no such latch exists."""
+    import ranges
+    b, cfg = fl.body, fl.cfg
+    R = ranges.Ranges(fl)
+    heads = set(cfg.loops().keys())
+    exits = set(cfg.exits())
+    why = 'no latch variable found'
+    for F in sorted(fl.defs.keys()):
+        if F == 0 or F <= b.argc:
+            continue
+        ty = b.local_ty(F)
+        if not (ranges.ty_range(ty) or ty.startswith('std::option::Option<')):
+            continue
+        inits, sets, other = [], [], []
+        for (dbb, idx, kind, data, dproj) in fl.defs.get(F, []):
+            if dproj or kind != 'assign':
+                other.append(dbb)
+                continue
+            k = data['k']
+            if k == 'use' and data['ops'][0]['k'] == 'const':
+                v = R.const_val(data['ops'][0])
+                (inits if v == 0 else sets).append(dbb)
+            elif k == 'agg' and data.get('vname') == 'None':
+                inits.append(dbb)
+            elif k == 'agg' and data.get('vname') == 'Some':
+                sets.append(dbb)
+            elif k == 'use' and data['ops'][0].get('p') and not data['ops'][0]['p']['proj'] and \
+                    len(fl.defs.get(data['ops'][0]['p']['l'], [])) == 1 and fl.defs[data['ops'][0]['p']['l']][0][2] == 'assign' and \
+                    fl.defs[data['ops'][0]['p']['l']][0][3]['k'] == 'agg' and fl.defs[data['ops'][0]['p']['l']][0][3].get('vname') in ('None', 'Some'):
+                # F = move _tmp with _tmp = Some(..) / None (drop-and-replace of a non-Copy Option)
+                (inits if fl.defs[data['ops'][0]['p']['l']][0][3].get('vname') == 'None' else sets).append(dbb)
+            elif k == 'use' and data['ops'][0].get('p') and data['ops'][0]['p']['proj']:
+                # F = move (_t.0) with _t = AddWithOverflow(copy F, const c != 0)
+                tl = data['ops'][0]['p']['l']
+                tdefs = fl.defs.get(tl, [])
+                pj = data['ops'][0]['p']['proj']
+                # `let (mut a, mut n) = (x, 0)`: F = copy (_t.k) with _t a tuple aggregate
+                if len(pj) == 1 and isinstance(pj[0], dict) and 'f' in pj[0] and tdefs and \
+                   all(kk == 'assign' and dd['k'] == 'agg' and dd.get('ak') == 'tuple' and not dp for (_, _, kk, dd, dp) in tdefs):
+                    vals = [R.const_val(dd['ops'][pj[0]['f']]) if dd['ops'][pj[0]['f']]['k'] == 'const' else None for (_, _, kk, dd, dp) in tdefs]
+                    if all(v == 0 for v in vals):
+                        inits.append(dbb)
+                    else:
+                        other.append(dbb)
+                    continue
+                inc = bool(tdefs) and all(kk == 'assign' and dd['k'] == 'bin' and dd['op'] in ('AddWithOverflow', 'Add') and
+                                          R.root(dd['ops'][0]) in (('m', F), ('l', F)) and (R.const_val(dd['ops'][1]) or 0) > 0
+                                          for (_, _, kk, dd, _) in tdefs)
+                (sets if inc else other).append(dbb)
+            else:
+                other.append(dbb)
+        if other or not inits or not sets or F in R.escaped:
+            continue
+        # the event always sets the latch
+        latched = True
+        for (s_, t_, lab) in set_edges:
+            r = cfg.reach(t_, cut_blocks=sets)
+            if t_ not in sets and (r & (heads | exits)):
+                latched = False
+        if not latched:
+            why = '%s is not assigned on every path after the event' % (b.local_name(F) or '_%d' % F)
+            continue
+        # tests "F still initial"
+        init_edges = set()
+        for bi in cfg.reachable():
+            blk = b.blocks[bi]
+            for st in blk['stmts']:
+                rv = st['rv']
+                if rv['k'] == 'bin' and rv['op'] in ('Eq', 'Ne') and not st['dst']['proj']:
+                    ra, rb_ = R.root(rv['ops'][0]), R.root(rv['ops'][1])
+                    isF = lambda r_: r_ in (('m', F), ('l', F))
+                    zero = lambda r_: r_ == ('c', 0)
+                    if (isF(ra) and zero(rb_)) or (isF(rb_) and zero(ra)):
+                        oc = fl.outcomes(None, st['dst']['l'])
+                        init_edges |= oc.get('true' if rv['op'] == 'Eq' else 'false', set())
+                if rv['k'] == 'discr' and rv['p']['l'] == F and not rv['p']['proj']:
+                    t = blk['term']
+                    if t['k'] == 'switch' and t['on']['k'] != 'const' and t['on']['p']['l'] == st['dst']['l']:
+                        listed = {v for v, _ in t['targets']}
+                        for v, tgt in t['targets']:
+                            if v == 0:
+                                init_edges.add((bi, tgt, v))
+                        if 0 not in listed:
+                            init_edges.add((bi, t['otherwise'], 'otherwise'))
+            t = blk['term']
+            if t['k'] == 'switch' and t['on']['k'] != 'const' and not t['on']['p']['proj'] and b.local_ty(t['on']['p']['l']) == 'bool' \
+               and R.root(t['on']) in (('m', F), ('l', F)):
+                tr, fa = bool_edges(bi, t)
+                init_edges |= fa
+        if init_edges and ok_blocks and all(cfg.edges_guard(init_edges, ob) for ob in ok_blocks):
+            return F, 'latch %s' % (b.local_name(F) or '_%d' % F)
+        why = 'the success return is not guarded by a test that %s is still at its initial value' % (b.local_name(F) or '_%d' % F)
+    return None, why
